@@ -448,16 +448,16 @@ def c17(tier):
     run = P.Run("C17", tier, ["C17_"], keep_obs=True)
     s = run.seed
     # Spec B with the Rerun action: C17 clauses model-checked, behaviours replayed into the real conductor
-    run.add_mc((F.curated()[:16] if tier == "quick" else F.curated() + F.curated_retry()[:4] + F.random_family(3500 + s, 60, nmax=4)),
+    run.add_mc((F.curated()[:16] if tier == "quick" else F.curated() + F.curated_retry()[:4] + F.random_family(3500 + s, 30, nmax=4)),
                ["C17"], max_rerun=1, max_steps=18, replay=True)
-    defs = F.curated() + F.curated_ctx() + F.random_family(2400 + s, sizes(tier, 40, 150), nmax=4, publish=True)
-    env = {"rerun": 1, "rerun_tasks": True, "max_nodes": sizes(tier, 1200, 4000)}
+    defs = F.curated() + F.curated_ctx() + F.random_family(2400 + s, sizes(tier, 40, 100), nmax=4, publish=True)
+    env = {"rerun": 1, "rerun_tasks": True, "max_nodes": sizes(tier, 1200, 2500)}
     run.add_jobs(jobs_for(defs, env, s, ("yaql", "jinja")))
     run.add_jobs(jobs_for(F.curated_items() + F.curated_retry() + F.fault_family(("undef",), ("when", "publish", "output")),
-                          dict(env, max_nodes=sizes(tier, 700, 8000), **({"sample": 4} if tier == "quick" else {})), s))
+                          dict(env, max_nodes=sizes(tier, 700, 2500), **({"sample": 4} if tier == "quick" else {})), s))
     # rerun requests probed in every state (accepted only when completed and for existing executions)
     run.add_jobs(jobs_for(F.curated() + F.curated_items()[:9] + F.curated_retry()[:4],
-                          {"probe_rerun": True, "pause": 1, "cancel": 1, "max_nodes": sizes(tier, 600, 6000)}, s))
+                          {"probe_rerun": True, "pause": 1, "cancel": 1, "max_nodes": sizes(tier, 600, 2500)}, s))
     if tier != "quick":
         run.add_jobs(jobs_for(F.curated(), dict(env, rerun=2, cancel=1), s))
     # one rerun request for every execution (whatever its status) of a finished history of the shapes with splits
